@@ -13,7 +13,7 @@ import (
 
 var vhInvalColls = base.ScopeAndCollectionNames{base.DefaultScopeAndCollectionName(), base.NewScopeAndCollectionName("s1", "c1"), base.NewScopeAndCollectionName(base.DefaultScope, "c2")}
 
-func vhNondetTimedSet(name string) ch.TimedSet {
+func vhNondetNamedSet(name string) ch.TimedSet {
 	if vNondetBool() {
 		return nil
 	}
@@ -24,14 +24,14 @@ func vhNondetTimedSet(name string) ch.TimedSet {
 // present or not, each valid or already invalidated; roles present or not, valid or already invalidated.
 func vhNondetStoredUser(a *Authenticator, s *vhStore) *userImpl {
 	u := &userImpl{roleImpl: roleImpl{Name_: "u1", Sequence_: 1, ExplicitChannels_: ch.TimedSet{"adm": ch.NewVbSimpleSequence(1)}}}
-	u.Channels_ = vhNondetTimedSet("A")
+	u.Channels_ = vhNondetNamedSet("A")
 	if vNondetBool() {
 		u.ChannelInvalSeq = vNondetU64()
 		vAssume(u.ChannelInvalSeq > 0)
 	}
 	for _, sc := range vhInvalColls[1:] {
 		if vNondetBool() {
-			ca := &CollectionAccess{Channels_: vhNondetTimedSet("B")}
+			ca := &CollectionAccess{Channels_: vhNondetNamedSet("B")}
 			if vNondetBool() {
 				ca.ChannelInvalSeq = vNondetU64()
 				vAssume(ca.ChannelInvalSeq > 0)
@@ -45,7 +45,7 @@ func vhNondetStoredUser(a *Authenticator, s *vhStore) *userImpl {
 			u.CollectionsAccess[sc.ScopeName()][sc.CollectionName()] = ca
 		}
 	}
-	u.RolesSince_ = vhNondetTimedSet("r1")
+	u.RolesSince_ = vhNondetNamedSet("r1")
 	if vNondetBool() {
 		u.RoleInvalSeq = vNondetU64()
 		vAssume(u.RoleInvalSeq > 0)
